@@ -712,9 +712,48 @@ def restricted(it_slice):
     return sorted({m.group(1) for c in it_slice.call_objs for m in [RESTRICT_RE.search(c.name)] if m})
 
 
+EPS = 2.220446049250313e-16
+
+
+def _negligible_cmp(body, st):
+    """+1 / -1 if the f64 comparison statement is `|x| <= EPSILON` (true = negligible) / `|x| > EPSILON` (false = negligible), else 0"""
+    rv = st['rv']
+    if rv['k'] != 'bin' or rv['op'] not in ('Le', 'Lt', 'Gt', 'Ge') or rv.get('ty') != 'f64': return 0
+    a, c = rv['ops']
+    def eps(o): return o['k'] == 'const' and T.f64_const(o['v']) is not None and 0 < T.f64_const(o['v']) <= 1e-9
+    def absv(o): return any(x[1] == 'abs' for x in T.expr_calls(T.expr(body, o)))
+    if eps(c) and absv(a): return 1 if rv['op'] in ('Le', 'Lt') else -1
+    if eps(a) and absv(c): return 1 if rv['op'] in ('Ge', 'Gt') else -1
+    return 0
+
+
+def negligible_targets(b):
+    """blocks entered only when a coefficient is negligible (|x| <= EPSILON): the documented dropping of coefficients below
+    machine epsilon.  The test may be written in place or in a closure / helper that returns it (`let negligible = |v| ..`)."""
+    out = set()
+    for bi, st in b.stmts():
+        pol = _negligible_cmp(b, st)
+        if pol:
+            for g in T.guards_from_local(b, st['dst']['l'], bi):
+                t = g.true_bb if pol > 0 else g.false_bb
+                if t is not None: out.add(t)
+    F = getattr(b, 'facts', None)
+    for c in b.calls:
+        cb = F.bodies.get(c.path) if F is not None else None
+        if cb is None or cb.locals[0] != 'bool': continue
+        pols = {_negligible_cmp(cb, st) for bi, st in cb.stmts()} - {0}
+        if len(pols) != 1 or any(bl['term']['k'] == 'switch' for bl in cb.blocks): continue
+        for g in T.guards_from_call(b, c):
+            t = g.true_bb if next(iter(pols)) > 0 else g.false_bb
+            if t is not None: out.add(t)
+    return out
+
+
 def loop_merges(b, L, sites):
-    """every pass through the body of loop L goes through an add site or a lookup-guarded insert of the map"""
+    """every pass through the body of loop L goes through an add site or a lookup-guarded insert of the map -- or leaves
+    the item out because its coefficient is negligible (documented dropping)"""
     via = {s['bb'] for s in sites if s['bb'] in L['blocks'] and s['kind'] in ('add', 'insert')}
+    via |= {t for t in negligible_targets(b) if t in L['blocks']}
     adds = [s for s in sites if s['bb'] in L['blocks'] and s['kind'] == 'add']
     return bool(adds) and T.must_pass(b, L['some'], {L['header']}, via), adds
 
@@ -770,6 +809,70 @@ def call_sink_params(ctx, c, _depth=0):
     return out or set()
 
 
+# ---- merging the neighbours of a sorted vector ------------------------------------------------
+# `v.sort*(); v.dedup_by(|a, b| ..)`: std calls the closure with a = the element that is REMOVED when it returns true and
+# b = the previous element, which is RETAINED.  Equal keys are merged correctly only by adding the removed element into
+# the retained one (`b.1 += a.1; true`); `a.1 += b.1` accumulates into the element that is thrown away.
+# dedup() / dedup_by_key() never accumulate: the coefficients of repeated keys are lost.
+def closure_body_of(ctx, b, o):
+    """body of the closure an operand holds (the closure aggregate is found through plain moves / copies)"""
+    for _ in range(6):
+        if o['k'] not in ('copy', 'move') or o['pl']['p']: return None
+        ds = whole_defs(b, o['pl']['l'])
+        if len(ds) != 1 or ds[0][0] != 'stmt': return None
+        rv = ds[0][2]['rv']
+        if rv['k'] == 'use': o = rv['ops'][0]; continue
+        if rv['k'] == 'ref': o = {'k': 'copy', 'pl': rv['pl']}; continue
+        if rv['k'] == 'agg' and rv['adt'].startswith('closure:'): return ctx.F.bodies.get(rv['adt'][8:])
+        return None
+    return None
+
+
+def dedup_calls(ctx, b):
+    """[(call, verdict, why)] for the dedup* calls on vectors in body b; verdict 'merge' = sorted before and the removed
+    element is added into the retained one, 'loss' otherwise"""
+    out = []
+    for c in b.calls:
+        if c.item not in ('dedup', 'dedup_by', 'dedup_by_key') or 'Vec' not in c.name or not c.args: continue
+        if c.item != 'dedup_by' or len(c.args) < 2:
+            out.append((c, 'loss', '%s keeps the first of equal neighbours and drops the others' % c.item)); continue
+        cb = closure_body_of(ctx, b, c.args[1])
+        if cb is None or cb.argc != 3:
+            out.append((c, 'loss', 'dedup_by with a function that cannot be inspected')); continue
+        def root(o):
+            return T.access_path(cb, o, transparent=T.TRANSPARENT_NOCLONE)[1] if o['k'] in ('copy', 'move') else None
+        adds = []       # (root of the element added to, root of the element added)
+        for bi, st in cb.stmts():
+            rv = st['rv']
+            if rv['k'] == 'bin' and rv['op'] == 'Add' and rv.get('ty') == 'f64' and st['dst']['p']:
+                others = [o for o in rv['ops'] if not (o['k'] in ('copy', 'move') and o['pl'] == st['dst'])]
+                if len(others) == 1: adds.append((root({'k': 'copy', 'pl': st['dst']}), root(others[0])))
+        for x in cb.calls:
+            if T.ASSIGN_CALL.match(x.name) and 'AddAssign' in x.name and len(x.args) == 2: adds.append((root(x.args[0]), root(x.args[1])))
+        root_b = T.access_path(b, c.args[0], transparent=T.TRANSPARENT_NOCLONE)[1]
+        sorts = [x for x in b.calls if SORT_ITEMS.match(x.item) and x.args and x.args[0]['k'] in ('copy', 'move')
+                 and T.access_path(b, x.args[0], transparent=T.TRANSPARENT_NOCLONE)[1] == root_b and root_b is not None]
+        if (3, 2) in adds and not any(t == 2 for t, f in adds):
+            if sorts and T.must_pass(b, 0, {c.bb}, {x.bb for x in sorts}): out.append((c, 'merge', ''))
+            else: out.append((c, 'loss', 'the vector is not sorted on every path before dedup_by: equal keys need not be neighbours'))
+        elif any(t == 2 for t, f in adds):
+            out.append((c, 'loss', 'dedup_by accumulates into its FIRST closure argument, the element that is removed: the sum is thrown away'))
+        else:
+            out.append((c, 'loss', 'dedup_by does not add the removed element into the retained one'))
+    return out
+
+
+def dedup_merge_params(ctx, body):
+    """parameters whose items are collected into a vector that is sorted and merged by a correct dedup_by, the result
+    being built from that vector"""
+    rs = ctx.S.backslice(body, [0]); out = set()
+    for c, verdict, why in dedup_calls(ctx, body):
+        if verdict != 'merge': continue
+        sl = ctx.S.slice_operand(body, c.args[0])
+        if len(sl.params) == 1 and not restricted(sl) and (sl.locals & rs.locals): out |= sl.params
+    return out
+
+
 def merge_sink_params(ctx, body, _depth=0):
     """parameters i of a crate function such that every item of the iterator passed as parameter i is
     merged into a map by `map[item key] += item value`, and the result is built from that map
@@ -798,6 +901,12 @@ def merge_sink_params(ctx, body, _depth=0):
                 if j - 1 < len(c.args):
                     s = ctx.S.slice_operand(body, c.args[j - 1])
                     if len(s.params) == 1 and not restricted(s): out |= s.params
+    dd = dedup_calls(ctx, body)
+    out |= dedup_merge_params(ctx, body)
+    for c, verdict, why in dd:
+        if verdict == 'loss':
+            sl = ctx.S.slice_operand(body, c.args[0])
+            if sl.locals & rs.locals: out -= sl.params           # what is merged is thinned out again without accumulation
     cache[body.name] = out
     return out
 
@@ -1581,9 +1690,10 @@ def overwriting_loads(ctx, b, params=(1,)):
             if c.item != 'extend' and c.dst['l'] not in rs.locals: continue
             if set(params) & ctx.S.slice_operand(b, c.args[-1]).params:
                 out.append((c.bb, 'terms are collected into a map (%s): terms with the same key overwrite each other' % c.item))
-        elif c.item in ('dedup', 'dedup_by', 'dedup_by_key') and c.args and c.args[0]['k'] in ('copy', 'move'):
-            sl = ctx.S.slice_operand(b, c.args[0])
-            if set(params) & sl.params and (sl.locals & rs.locals): out.append((c.bb, 'terms are removed by %s' % c.item))
+    for c, verdict, why in dedup_calls(ctx, b):
+        if verdict == 'merge' or c.args[0]['k'] not in ('copy', 'move'): continue
+        sl = ctx.S.slice_operand(b, c.args[0])
+        if set(params) & sl.params and (sl.locals & rs.locals): out.append((c.bb, 'terms are removed by %s (%s)' % (c.item, why)))
     return out
 
 
@@ -1660,6 +1770,22 @@ def kernel_rules(ctx):
     if b is None: ctx.lost(R + '/Quadratic+Quadratic', 'Add')
     else:
         ctx.fn(b); quad_merge_rule(ctx, b, R + '/Quadratic+Quadratic/merge')
+    # the merge constructors themselves (everything that builds a function from (key, coefficient) pairs goes through them:
+    # conversions between kinds, mixed-kind + and *, the products): items with equal keys are merged by ADDING -- through a
+    # keyed container with `+=` (the add-site table), or sort + dedup_by adding the removed neighbour into the retained one
+    for label, self_ty, item, trait, targs in (('Linear::new', 'v1::Linear', 'new', None, None),
+                                               ('Linear::from_iter<(u64,f64)>', 'v1::Linear', 'from_iter', 'FromIterator', ['(u64, f64)']),
+                                               ('Linear::from_iter<(Option<u64>,f64)>', 'v1::Linear', 'from_iter', 'FromIterator', ['(std::option::Option<u64>, f64)']),
+                                               ('Quadratic::from_iter', 'v1::Quadratic', 'from_iter', 'FromIterator', ['((u64, u64), f64)']),
+                                               ('Polynomial::from_iter', 'v1::Polynomial', 'from_iter', 'FromIterator', ['(sorted_ids::SortedIds, f64)'])):
+        b = ctx.F.one(self_ty, item, trait=trait, targs=targs)
+        rid = R + '/merge-constructor/' + label
+        if b is None:
+            ctx.lost(rid, label); continue
+        ctx.fn(b)
+        ok = 1 in merge_sink_params(ctx, b)
+        why = [w for c, v, w in dedup_calls(ctx, b) if v == 'loss']
+        ctx.check(ok, rid, 'T-BRANCHFX', b.name, 'items with equal keys are not merged by adding their coefficients for every item%s' % (': ' + '; '.join(why) if why else ''), b.site())
     for ty, adt, fld in (('v1::Linear', 'v1::linear::Term', 'coefficient'), ('v1::Polynomial', 'v1::Monomial', 'coefficient'), ('v1::Quadratic', 'v1::Quadratic', 'values')):
         b = ctx.F.one(ty, 'mul', trait='Mul', targs=['f64'])
         if b is None: ctx.lost(R + '/%s*f64' % ty, 'Mul<f64>'); continue
@@ -1681,7 +1807,7 @@ def kernel_rules(ctx):
         okz = bool(Ls) and T.must_pass(b, 0, return_blocks(b), via)
         ctx.check(okz, R + '/%s*f64/only-exact-zero-shortcut' % short, 'T-GUARD', b.name,
                   'the function is returned without scaling under %s, not only for a scalar that is exactly 0' % (other or 'some condition'), b.site())
-    ctx.floor(R, 13)
+    ctx.floor(R, 18)
 
 
 # =============================================================================== C02.sorted
